@@ -146,6 +146,26 @@ def iterateT (cap0 : Option Nat) (pool : Nat → Option Nat) (sz : Item → Nat)
   Http.assemble (Http.parseInit (initBodyT cap0 sz pre initLogs rs))
     (fun pos => Http.follow (serveT pool sz pre rs) (rs.length + 1) (serveT pool sz pre rs pos))
 
+/-! ## `next_with_token`: one response per call
+
+`HttpStreamSession.next_with_token` reads ONE continuation response: log batches go to `on_log`, the data batch is kept,
+the sentinel's token is remembered; then the end-of-stream test (`Gen.C11.nwtEndOfStream`, extracted) decides between
+`(None, None)` and `(batch, token)`. -/
+
+/-- what the read loop has after the response: the data batch (if any) and the next token (if any) -/
+def nwtScan : List Item → Option Batch × Option Nat
+  | [] => (none, none)
+  | .log _ :: r => nwtScan r
+  | .data b :: r => (some b, (nwtScan r).2)          -- a second data batch raises: one per response is the precondition
+  | .token p :: r => ((nwtScan r).1, some p)
+  | .err _ :: _ => (none, none)                       -- RpcError
+
+/-- `(batch, next token)` as returned to the caller; `none` = `(None, None)`, the stream is declared finished -/
+def nwtRead (body : List Item) : Option (Batch × Option Nat) :=
+  match nwtScan body with
+  | (some b, t) => if Gen.C11.nwtEndOfStream true b.rows then none else some (b, t)
+  | (none, _) => none
+
 /-! ## resume token (`_encode_resume_token` / `_decode_resume_token`) -/
 
 abbrev Bytes := List UInt8
